@@ -873,8 +873,26 @@ func (c *gcase) comparePartition(d *ldData) (diff []string, shared int) {
 		}
 		return setKey(ns)
 	}
+	// a shared chunk that holds nothing but esbuild's runtime helpers (needed for namespace objects; the runtime is
+	// reachable from every entry point) is outside the alphabet of the specification, as the runtime file is
+	helperOnly := map[int]bool{}
+	for i, ch := range d.Chunks {
+		n := 0
+		for _, f := range ch.Files {
+			if user[nameOf[f]] {
+				n++
+			}
+		}
+		if n == 0 && !ch.IsEntry && len(ch.Files) > 0 {
+			helperOnly[i] = true
+		}
+	}
 	real := map[string]realChunk{}
-	for _, ch := range d.Chunks {
+	for ci, ch := range d.Chunks {
+		if helperOnly[ci] {
+			shared++
+			continue
+		}
 		rc := realChunk{}
 		for _, b := range ch.Bits {
 			rc.Bits = append(rc.Bits, entryName(b))
@@ -890,7 +908,7 @@ func (c *gcase) comparePartition(d *ldData) (diff []string, shared int) {
 			shared++
 		}
 		for _, imp := range ch.Imports {
-			if imp.Chunk < 0 || imp.Chunk >= len(d.Chunks) {
+			if imp.Chunk < 0 || imp.Chunk >= len(d.Chunks) || helperOnly[imp.Chunk] {
 				continue
 			}
 			k := bitsKey(d.Chunks[imp.Chunk].Bits)
